@@ -333,3 +333,43 @@ func VerifH_C09_twoProbes() {
 	}
 	verifCover("done")
 }
+
+// VerifH_C09_afterHit: a genuine proxy is found first; then the same scanner probes a server that
+// closes, resets, stalls or answers with solver-chosen bytes: the second verdict depends on the second
+// server's own reply only (nothing remembered from the first probe, e.g. in a recycled reply object).
+func VerifH_C09_afterHit() {
+	verifNow()
+	s := NewScanner(WithDialTimeout(time.Second), WithDataTimeout(time.Second))
+	c09DialCalls, c09Connected, c09DialMode, c09DialLatency = 0, false, 0, 0
+	peer := &c09Conn{closedCh: make(chan struct{}), timeout: time.Second}
+	peer.chunks = [][]byte{{5, 0}}
+	peer.readModes = []int{0, 0, 0}
+	c09Peer = peer
+	res, err := s.Scan(context.Background(), &scan.Request{DstIP: net.IPv4(10, 1, 2, 3), DstPort: 1080})
+	verifAssert(err == nil && res != nil, "a server answering 05 00 was not reported")
+	// second server
+	c09DialCalls, c09Connected = 0, false
+	peer2 := &c09Conn{closedCh: make(chan struct{}), timeout: time.Second}
+	reply := ndBytes("reply", 2)
+	nbytes := c09Choice("replyBytes", 3) // the server sends 0, 1 or 2 bytes, then behaves as `then`
+	then := []int{1, 2, 3}[c09Choice("then", 3)] // EOF, stall, reset
+	if nbytes > 0 {
+		peer2.chunks = [][]byte{reply[:nbytes]}
+		peer2.readModes = []int{0, then, then}
+	} else {
+		peer2.readModes = []int{then, then, then}
+	}
+	c09Peer = peer2
+	res2, err2 := s.Scan(context.Background(), &scan.Request{DstIP: net.IPv4(10, 1, 2, 4), DstPort: 1081})
+	full := nbytes == 2 && reply[0] == 5 && reply[1] == 0
+	if res2 != nil {
+		verifCover("reported")
+		verifAssert(full, "reported as SOCKS5 proxy although this server never sent 05 00 (verdict remembered from an earlier probe?)")
+		verifAssert(err2 == nil, "a record together with an error")
+		r := res2.(*ScanResult)
+		verifAssert(r.IP == "10.1.2.4" && r.Port == 1081, "record does not carry the probed address and port")
+	} else {
+		verifCover("not-reported")
+		verifAssert(!full, "server answered 05 00 but was not reported")
+	}
+}
